@@ -20,7 +20,7 @@ def blank_surface(tag, tracks, spt):
     return bytes(img)
 
 
-def marker_surface(tag, tracks, spt, total=None, with_file=True):
+def marker_surface(tag, tracks, spt, total=None, with_file=True, empty_first=False):
     """A surface with a valid (Acorn) catalogue and every other sector self-describing."""
     nsec = tracks * spt
     img = bytearray()
@@ -35,6 +35,10 @@ def marker_surface(tag, tracks, spt, total=None, with_file=True):
         # one file covering sectors 2..4 whose body is the marker content itself
         ents.append({"name": b"F", "dir": ord("$"), "locked": False, "load": 0, "exec": 0,
                      "length": 3 * 256 - 7, "start": 2, "body": {"kind": "rand", "seed": 0}})
+    if with_file and empty_first:
+        # a zero-length file catalogued just before F with the same start sector (legal: it occupies nothing)
+        ents.insert(0, {"name": b"EMPTY", "dir": ord("$"), "locked": False, "load": 0, "exec": 0, "length": 0,
+                        "start": 2, "body": {"kind": "rand", "seed": 0}})
     s0, s1 = disc.encode_catalog_pair(("M-" + tag).encode()[:12], 0x11, 0, total, ents)
     img[0:256] = s0
     img[256:512] = s1
@@ -80,6 +84,7 @@ def case_st(draw):
             c["tracks"] = draw(st.sampled_from([40, 80]))
         # the same container gzip-compressed (the extension hints must survive the extra .gz)
         c["gz"] = draw(st.integers(0, 3)) == 0
+        c["empty_first"] = draw(st.integers(0, 2)) == 0
         if kind.endswith("trunc"):
             c["cut_sectors"] = draw(st.integers(1, c["spt"] * 3))
             c["cut_bytes"] = draw(st.sampled_from([0, 0, 1, 128, 255]))
@@ -182,10 +187,13 @@ class C04(CheckBase):
         tot = tracks * spt if (case.get("big_total") and tracks * spt > 1023) else None
         if tot:
             v.classes.append("11-bit-sector-count")
-        sides = [marker_surface("side0", tracks, spt, total=tot)]
+        ef = bool(case.get("empty_first"))
+        if ef:
+            v.classes.append("zero-length-entry-before-file-at-same-sector")
+        sides = [marker_surface("side0", tracks, spt, total=tot, empty_first=ef)]
         blank1 = case["kind"] == "inter-blank1"
         if inter:
-            sides.append(blank_surface("side1", tracks, spt) if blank1 else marker_surface("side1", tracks, spt, total=tot))
+            sides.append(blank_surface("side1", tracks, spt) if blank1 else marker_surface("side1", tracks, spt, total=tot, empty_first=ef))
             data = containers.interleaved(sides[0], sides[1], spt)
         else:
             data = sides[0]
